@@ -349,6 +349,7 @@ def check_property(prop, tier, quiet=False):
     smt_time_ms = 0
     checker_cmds = []
     ledger = load_ledger()
+    have_by_unit = {}
     for r in results:
         b = r["built"]
         for x in r["undecided"]:
@@ -363,11 +364,8 @@ def check_property(prop, tier, quiet=False):
         trusted.extend("%s: %s" % (b.uid, x) for x in tb)
         named, implicit, assumed = unit_obligations(b, prop)
         assumed_pre.extend(assumed)
-        if ledger is not None:
-            want = [x for x in ledger.get(b.uid, {}).get(prop, [])]
-            lost = [x for x in want if x not in named and x not in implicit]
-            for x in lost:
-                undecided.append("%s: ledger obligation %s is no longer generated" % (b.uid, x))
+        have_by_unit.setdefault(b.uid, set()).update(named)
+        have_by_unit[b.uid].update(implicit)
         failed_ids = set()
         for f in r["failures"]:
             tags, is_named, oid = failure_tags(f, b)
@@ -417,6 +415,12 @@ def check_property(prop, tier, quiet=False):
                     if prop in c.tags and len(samples) < 12:
                         samples.append({"id": c.full_id, "kind": c.kind, "text": " ".join(c.text.split())[:300]})
         assumptions.extend("%s: %s" % (b.uid, a) for a in b.unit.get("assumptions", []))
+
+    if ledger is not None:
+        for uid, have in sorted(have_by_unit.items()):
+            for x in ledger.get(uid, {}).get(prop, []):
+                if x not in have:
+                    undecided.append("%s: ledger obligation %s (discharged on the pinned tree) is no longer generated" % (uid, x))
 
     # extras: bounded Kani parts, lemmas, teeth, audits (thorough) -------------------------------
     extras = X.run_extras(prop, tier, units, results)
@@ -570,24 +574,33 @@ def cmd_setup(args):
 
 
 def cmd_ledger(args):
+    """regenerate contracts/ledger.json: every obligation id discharged on the current (pinned, clean) tree"""
+    st = subprocess.run(["git", "-C", B.REPO, "status", "--porcelain", "--untracked-files=no"], capture_output=True, text=True)
+    if st.stdout.strip():
+        print("refusing: /repo has uncommitted changes to tracked files")
+        return 2
     led = {}
-    props = sorted({p for u in all_units().values() for p in u.get("properties", [])})
     for u in all_units().values():
         if u.get("disabled"):
             continue
-        b = B.build_unit(u["_dir"], os.path.join(BUILD, "ledger", u["id"] + ".rs"))
-        run = V.run_verus(b.path)
-        fails, infra = V.classify(b, run)
-        if fails or infra:
-            print("unit %s does not verify; ledger not written" % u["id"])
-            return 2
         led[u["id"]] = {}
-        for p in u.get("properties", []):
-            named, implicit, assumed = unit_obligations(b, p)
-            led[u["id"]][p] = named + implicit
+        for r in run_unit(u["_dir"], "ledger", "quick", want_neg=False):
+            b = r["built"]
+            if b is None or r["failures"] or r["undecided"]:
+                print("unit %s does not verify; ledger not written: %s" % (r["unit"], r["undecided"][:2]))
+                return 2
+            for p in u.get("properties", []):
+                named, implicit, assumed = unit_obligations(b, p)
+                cur = led[u["id"]].setdefault(p, [])
+                for x in named + implicit:
+                    if x not in cur:
+                        cur.append(x)
+    for uid in led:
+        for p in led[uid]:
+            led[uid][p].sort()
     with open(LEDGER, "w") as f:
         json.dump(led, f, indent=1, sort_keys=True)
-    print("ledger written: %d units" % len(led))
+    print("ledger written: %d units, %d obligation ids" % (len(led), sum(len(v) for d in led.values() for v in d.values())))
     return 0
 
 
